@@ -30,7 +30,9 @@ enum Ent {
 type State = BTreeMap<String, Ent>;
 
 const DIRS: &[&str] = &["src", "lib", "m.rs", "deep", "n.rs"];
-const FILES: &[&str] = &["a.rs", "b.rs", "m.rs", "n.rs", "x.rs", "real.rs"];
+// `src.rs`, `lib-x.rs`, `deep!`: names that extend a directory name with a byte below `/` — git
+// orders a tree as if directory names ended in `/`, a plain string order does not
+const FILES: &[&str] = &["a.rs", "b.rs", "m.rs", "n.rs", "x.rs", "real.rs", "src.rs", "lib-x.rs", "deep!.rs", "src-gen.rs"];
 const LINK_TARGETS: &[&str] = &["a.rs", "real.rs", "src/a.rs", "missing.rs", "src"];
 
 fn content(rng: &mut Rng) -> String {
@@ -66,6 +68,19 @@ fn mutate(rng: &mut Rng, st: &mut State, earlier: &[State]) -> &'static str {
     let keys: Vec<String> = st.keys().cloned().collect();
     let files: Vec<String> = keys.iter().filter(|k| matches!(st[*k], Ent::File { .. })).cloned().collect();
     let links: Vec<String> = keys.iter().filter(|k| matches!(st[*k], Ent::Link { .. })).cloned().collect();
+    // a file named like a directory that stays, plus a byte below `/` (`src.rs` next to `src/`):
+    // git orders tree entries as if directory names ended in `/`
+    let dirs: Vec<String> = keys.iter().filter_map(|k| k.rsplit_once('/').map(|(d, _)| d.to_string())).collect::<BTreeSet<_>>().into_iter().collect();
+    if !dirs.is_empty() && rng.chance(1, 7) {
+        let d = rng.pick(&dirs).clone();
+        let p = format!("{d}{}", rng.pick(&[".rs", "-x.rs", "!.rs", ".a.rs"]));
+        if st.contains_key(&p) {
+            st.remove(&p);
+            return "delete-dir-sibling";
+        }
+        put(st, &p, Ent::File { content: content(rng), exec: false });
+        return "add-dir-sibling";
+    }
     match rng.below(12) {
         0 | 1 => {
             let p = rand_path(rng);
